@@ -42,6 +42,7 @@ type probe struct {
 	how   string // how the input was derived
 	canon []byte // the canonical encoding it was derived from (may be nil)
 	meter bool   // measure allocation (ReadMemStats stops the world: not on every probe)
+	pre   []tv   // values that precede data on the same stream and are read with the same decoder (c12_reader_test.go)
 }
 
 // checkC12 applies the C12 oracle to one (bytes, type) pair on both entry
@@ -146,8 +147,8 @@ func checkC12(c *vcommon.Case, p probe) {
 				} else {
 					c.Count("map_unsorted_input_accepted", 1)
 				}
-			} else if how == "Decoder.Decode" && o.consumed != ref.n {
-				c.Violation("consumed", fmt.Sprintf("Decoder.Decode(%s) took %d bytes from the stream, the value occupies %d", t.name, o.consumed, ref.n), wit(nil))
+			} else if how != "Unmarshal" && o.consumed != ref.n {
+				c.Violation("consumed", fmt.Sprintf("%s(%s) took %d bytes from the stream, the value occupies %d", how, t.name, o.consumed, ref.n), wit(nil))
 			}
 		}
 	}
@@ -169,6 +170,9 @@ func checkC12(c *vcommon.Case, p probe) {
 		a1 = totalAlloc()
 	}
 	judge("Decoder.Decode", o, a1-a0, p.meter)
+	// third decode path: scale.NewDecoder(bytes.NewReader(b)), alone and at the end of a stream of values
+	// read with the same decoder (c12_reader_test.go)
+	c12ReaderArms(c, p, judge)
 }
 
 func ratioBucket(r uint64) int {
@@ -447,4 +451,6 @@ func TestVerifC12(t *testing.T) {
 			checkC12(c, probe{t: t, data: data, how: "random", meter: i%2 == 0})
 		}
 	})
+	// hostile input at the end of a stream of values read with one decoder (c12_reader_test.go)
+	c12Streams(r)
 }
